@@ -165,6 +165,7 @@ pub struct Node {
     pub durable: Durable,
     pending: Vec<Pending>,
     p_pending: usize, // images pushed to P's pending list and not yet persisted
+    img_selfack: Vec<Option<(u64, u64)>>, // per pending P image: the leader's self-acknowledgement (term, index) generated right before it
     app: AppRec,      // volatile application state
     app_hist: VecDeque<AppRec>,
     incarnation: u64,
@@ -329,7 +330,7 @@ impl Sim {
             };
             let app = d.applied.clone();
             nodes.push(Node {
-                id, rn, store, durable: d, pending: vec![], p_pending: 0, app, app_hist: VecDeque::new(), incarnation: 0, cfg, member,
+                id, rn, store, durable: d, pending: vec![], p_pending: 0, img_selfack: vec![], app, app_hist: VecDeque::new(), incarnation: 0, cfg, member,
                 granted: BTreeSet::new(), granted_term: 0, deferred: None, released_req_term: 0, self_grant: None, handed: 0,
             });
         }
@@ -916,6 +917,25 @@ impl Sim {
         }
     }
 
+    /// P `rdy`: an image of the volatile state; a (P-)leader first generates its own acknowledgement
+    /// for everything this image will make durable
+    fn rdy_event(&mut self, i: usize) {
+        let id = self.nodes[i].id;
+        let mut sa = None;
+        if let Some(rn) = self.nodes[i].rn.as_ref() {
+            if rn.raft.state == StateRole::Leader && self.nodes[i].deferred.is_none() {
+                let (t, last) = (rn.raft.term, rn.raft.raft_log.last_index());
+                sa = Some((t, last));
+            }
+        }
+        if let Some((_, last)) = sa {
+            self.pev_now(format!("ackself {} {}", id, last));
+        }
+        self.pev_now(format!("rdy {}", id));
+        self.nodes[i].p_pending += 1;
+        self.nodes[i].img_selfack.push(sa);
+    }
+
     fn persist_event(&mut self, i: usize, n_images: usize) {
         if n_images == 0 {
             return;
@@ -923,6 +943,8 @@ impl Sim {
         let id = self.nodes[i].id;
         self.pev_now(format!("persist {} {}", id, n_images));
         self.nodes[i].p_pending -= n_images;
+        let ncov = n_images.min(self.nodes[i].img_selfack.len());
+        let covered: Vec<Option<(u64, u64)>> = self.nodes[i].img_selfack.drain(..ncov).collect();
         // the self-vote of a campaign is released (counts for `win`) once it is durable
         if let Some(t) = self.nodes[i].self_grant {
             let d = &self.nodes[i].durable.hs;
@@ -940,8 +962,16 @@ impl Sim {
                 self.pev_now(ev);
             }
             // bring P's durable image up to the volatile state that was physically persisted
-            self.pev_now(format!("rdy {}", id));
+            self.rdy_event(i);
             self.pev_now(format!("persist {} 1", id));
+            self.nodes[i].p_pending -= 1;
+            if let Some(Some((t, idx))) = self.nodes[i].img_selfack.pop() {
+                self.pev_now(format!("release {} ack {} {} {}", id, t, id, idx));
+            }
+        }
+        // the leader's own acknowledgements covered by the images that just became durable
+        if let Some(Some((t, idx))) = covered.iter().rev().find(|x| x.is_some()) {
+            self.pev_now(format!("release {} ack {} {} {}", id, t, id, idx));
         }
         self.pview(i);
     }
@@ -955,8 +985,7 @@ impl Sim {
         self.advance_apply(i);
         let lag = self.rng.chance(30);
         let Some(mut rd) = self.call(i, "ready", None, |rn| rn.ready()) else { return };
-        self.pev_now(format!("rdy {}", id));
-        self.nodes[i].p_pending += 1;
+        self.rdy_event(i);
         let is_async = self.async_mode && self.rng.chance(60) && self.nodes[i].deferred.is_none();
         if self.params.verbose {
             self.log(format!(
@@ -1056,8 +1085,7 @@ impl Sim {
             // the commit index of the LightReady becomes durable before anything is applied (A4)
             if let Some(c) = light.commit_index() {
                 self.nodes[i].store.mem.wl().mut_hard_state().commit = c;
-                self.pev_now(format!("rdy {}", id));
-                self.nodes[i].p_pending += 1;
+                self.rdy_event(i);
                 self.durable_write(i, &Writes { commit: Some(c), ..Default::default() });
                 self.persist_event(i, 1);
             }
@@ -1103,6 +1131,7 @@ impl Sim {
         self.nodes[i].rn = None;
         self.nodes[i].pending.clear();
         self.nodes[i].p_pending = 0;
+        self.nodes[i].img_selfack.clear();
         self.nodes[i].deferred = None;
         self.nodes[i].self_grant = None;
         self.pev_now(format!("crash {}", id));
